@@ -350,4 +350,54 @@ example : ¬ (graphOf { sampleProj with suites :=
   have h2 := hl ⟨.test, ["a", "y"]⟩ (by decide) ⟨.test, ["a", "x"]⟩ (by decide)
   omega
 
+/-! ### Non-vacuity: same-named tests in different suites as dependency targets of one test; names with dots
+
+  Names only have to be unique among siblings (`Valid.testNames` is per suite): `users.prepare` and
+  `orders.prepare` are different tests, `checkout.pay` depends on BOTH (task ids are (kind, PATH): a path is a
+  list of names, so a name containing a dot — `@lcc.test(name="v1.2")`, `@lcc.suite(name="api.v2")` — is one
+  component, never split). -/
+
+/-- `users.prepare`, `orders.prepare`; `checkout.pay` depends on both, `checkout.refund` on `pay`;
+    suite `api.v2` holds the tests `v1.2` and `prepare` -/
+def twinProj : Proj :=
+  { fixtures := []
+    suites :=
+      [ .mk "users" 0 false none none none none [] [tst "prepare" []] [],
+        .mk "orders" 0 false none none none none [] [tst "prepare" []] [],
+        .mk "checkout" 0 false none none none none []
+          [tst "pay" [["users", "prepare"], ["orders", "prepare"]], tst "refund" [["checkout", "pay"]]] [],
+        .mk "api.v2" 0 false none none none none [] [tst "v1.2" [], tst "prepare" []] [] ]
+    nbThreads := 3, forceDisabled := false, stopOnFailure := false }
+
+private def twinLvl (p : Path) : Nat :=
+  if p = ["checkout", "pay"] then 1 else if p = ["checkout", "refund"] then 2 else 0
+
+theorem twinProj_valid : Valid twinProj :=
+  ⟨by decide, by decide, by decide, by decide, ⟨twinLvl, by decide⟩⟩
+
+/-- one task per test, whatever the names: three tests called `prepare`, a dotted suite and a dotted test -/
+example : (graphOf twinProj).tasks.filter (fun t => t.kind == .test) =
+    [⟨.test, ["users", "prepare"]⟩, ⟨.test, ["orders", "prepare"]⟩, ⟨.test, ["checkout", "pay"]⟩,
+     ⟨.test, ["checkout", "refund"]⟩, ⟨.test, ["api.v2", "v1.2"]⟩, ⟨.test, ["api.v2", "prepare"]⟩] := by decide
+
+/-- `pay` waits for BOTH tests named `prepare` (and for its suite) -/
+example : (graphOf twinProj).succDeps ⟨.test, ["checkout", "pay"]⟩ =
+    [⟨.begin, ["checkout"]⟩, ⟨.test, ["users", "prepare"]⟩, ⟨.test, ["orders", "prepare"]⟩] := by decide
+
+/-- the ordering theorem instantiated for the SECOND of the same-named dependencies: in every reachable state of
+    every run of `twinProj` (any worker count, any interleaving, interrupted or not) `checkout.pay` starts after
+    `orders.prepare` has finished, and is run only if it succeeded -/
+example (n : Nat) (s : State TaskId) (hr : Reachable (graphOf twinProj) n s) :
+    (∀ i, s.startAt ⟨.test, ["checkout", "pay"]⟩ = some i → ∃ j, s.finishAt ⟨.test, ["orders", "prepare"]⟩ = some j ∧ j < i) ∧
+    (s.mode ⟨.test, ["checkout", "pay"]⟩ = some .run → s.result ⟨.test, ["orders", "prepare"]⟩ = some .success) := by
+  have hsv : (⟨["checkout"], .mk "checkout" 0 false none none none none []
+      [tst "pay" [["users", "prepare"], ["orders", "prepare"]], tst "refund" [["checkout", "pay"]]] [], false⟩ : SuiteView)
+      ∈ allSuites twinProj := List.Mem.tail _ (List.Mem.tail _ (List.Mem.head _))
+  have ht : tst "pay" [["users", "prepare"], ["orders", "prepare"]] ∈
+      (SuiteSpec.mk "checkout" 0 false none none none none []
+        [tst "pay" [["users", "prepare"], ["orders", "prepare"]], tst "refund" [["checkout", "pay"]]] []).tests :=
+    List.Mem.head _
+  exact ⟨fun i hi => test_starts_after_its_dependencies twinProj_valid hsv ht (d := ["orders", "prepare"]) (by decide) n s hr i hi,
+    fun hm => test_runs_only_if_dependencies_succeeded twinProj_valid hsv ht (d := ["orders", "prepare"]) (by decide) n s hr hm⟩
+
 end LccModel.C01Graph
